@@ -272,13 +272,6 @@ package node
 //@   pure
 //@   ensures !isRejectErr(result1)
 //@
-//@ func (*Pegnetd).SnapshotPayouts
-//@   trusted
-//@   requires @cadence height >= config.V20HeightActivation && height % 144 == 0 && rates != nil
-//@   modifies Lbal, Lsupply
-//@   ensures !isRejectErr(result)
-//@   ensures result == nil ==> balNonNeg(Lbal)
-//@
 //@ func (*Pegnetd).SyncBank
 //@   trusted
 //@   modifies LbankPresent, LbankAmt, LbankUsed, LbankReq
@@ -389,3 +382,47 @@ package node
 //@   loop 1 invariant @minted Lbal == mintAll(old(Lbal), MintTotalSupplyMap, iter, faAddr(GlobalMintAddress)) && balNonNeg(Lbal)
 //@   loop 1 preserves old
 //@ lemma mintListFits() [C15]: len(MintTotalSupplyMap) == 31 && (forall k int :: 0 <= k && k < 31 ==> MintTotalSupplyMap[k].Amount <= 184467440737 && validTicker(MintTotalSupplyMap[k].Ticker))
+//@
+//@ // ---- holder staking payouts (C14 C04 C01) ---------------------------------------------------------
+//@ spec func stakeOf(bs []uint64, t int, rates gomap[fat2.PTicker]uint64, h int) int =
+//@     (t == fat2.PTickerPEG || bs[t] == 0 || ((rates[t] == 0 || rates[fat2.PTickerUSD] == 0) && h >= config.V202EnhanceActivation)) ? 0
+//@     : convSpec(h, bs[t], rates[t], rates[t], rates[fat2.PTickerUSD], rates[fat2.PTickerUSD])
+//@ spec func stakeUpTo(bs []uint64, n int, rates gomap[fat2.PTicker]uint64, h int) int = n <= 1 ? 0 : stakeUpTo(bs, n - 1, rates, h) + stakeOf(bs, n - 1, rates, h)
+//@
+//@ func (*Pegnetd).SnapshotPayouts
+//@   props C14 C04
+//@   nullable fLog
+//@   requires @wellformed d.Pegnet != nil
+//@   requires @cadence height >= config.V20HeightActivation && height % 144 == 0 && rates != nil
+//@   requires @nonneg balNonNeg(Lbal)
+//@   modifies Lbal, Lsupply, LsnapCur, LsnapPast, LsnapInCur, LsnapInPast
+//@   ensures @capped err == nil ==> old(Lsupply)[fat2.PTickerPEG] <= Lsupply[fat2.PTickerPEG] && Lsupply[fat2.PTickerPEG] <= old(Lsupply)[fat2.PTickerPEG] + 450000000000 * 144
+//@   ensures @peg_only err == nil ==> (forall a factom.FAAddress, t int :: t != fat2.PTickerPEG ==> Lbal[a][t] == old(Lbal)[a][t]) && (forall t int :: t != fat2.PTickerPEG ==> Lsupply[t] == old(Lsupply)[t])
+//@   ensures @nobody_loses err == nil ==> (forall a factom.FAAddress :: Lbal[a][fat2.PTickerPEG] >= old(Lbal)[a][fat2.PTickerPEG])
+//@   ensures @never_negative err == nil ==> balNonNeg(Lbal)
+//@   ensures @error_is_not_a_reject_code !isRejectErr(err)
+//@   loop 1 invariant @range 0 <= iter && iter <= len(balances) && staked != nil && fresh(staked)
+//@   loop 1 invariant @stakes_present forall a factom.FAAddress :: dom(staked)[a] ==> vals(staked)[a] != nil
+//@   loop 1 invariant @ledger_untouched Lbal == old(Lbal) && Lsupply == old(Lsupply)
+//@   loop 1 preserves old
+//@   loop 2 invariant @range 1 <= i && i <= fat2.PTickerMax && total != nil && fresh(total)
+//@   loop 2 invariant @balances_fit len(bal.Balances) == fat2.PTickerMax + 1 && (forall t int :: validTicker(t) ==> bal.Balances[t] <= MaxInt64)
+//@   loop 2 invariant @ledger_untouched Lbal == old(Lbal) && Lsupply == old(Lsupply) && staked != nil && fresh(staked) && (forall a factom.FAAddress :: dom(staked)[a] ==> vals(staked)[a] != nil)
+//@   loop 2 preserves old
+//@   loop 3 invariant @eligible (forall j int :: 0 <= j && j < len(list) ==> list[j].PUSD > 0) && (len(list) == 0 || fresh(list))
+//@   loop 3 invariant @ledger_untouched Lbal == old(Lbal) && Lsupply == old(Lsupply) && (forall a factom.FAAddress :: dom(staked)[a] ==> vals(staked)[a] != nil)
+//@   loop 3 preserves old
+//@   loop 4 invariant @bank set != nil && fresh(set) && wfSet(set) && set.Bank == 450000000000 * 144 && payoutindex != nil && addressMap != nil && fresh(payoutindex) && fresh(addressMap) && fresh(set.ConversionRequests) && fresh(set.totalRequested) && set.ConversionRequests != payoutindex
+//@   loop 4 invariant @ledger_untouched Lbal == old(Lbal) && Lsupply == old(Lsupply)
+//@   loop 4 preserves old
+//@   loop 5 invariant @paid Lsupply == upd(old(Lsupply), fat2.PTickerPEG, old(Lsupply)[fat2.PTickerPEG] + msum(vals(ranged), visited))
+//@   loop 5 invariant @visited_in_dom forall k string :: visited[k] ==> dom(ranged)[k]
+//@   loop 5 invariant @peg_only (forall a factom.FAAddress, t int :: t != fat2.PTickerPEG ==> Lbal[a][t] == old(Lbal)[a][t]) && (forall a factom.FAAddress :: Lbal[a][fat2.PTickerPEG] >= old(Lbal)[a][fat2.PTickerPEG]) && balNonNeg(Lbal)
+//@   loop 5 invariant @total_bounded msum(vals(ranged), dom(ranged)) <= 450000000000 * 144
+//@   loop 5 preserves old
+//@
+//@ // valuation of a holder's stake: every non-PEG, non-zero balance (with usable rates from 2.0.2 on) is converted to pUSD at
+//@ // the block's spot rates, and nothing else is added (C14)
+//@ site-requires (*Pegnetd).SnapshotPayouts | conversions.Convert | 1
+//@   requires @valuation_inputs i != fat2.PTickerPEG && validTicker(i) && amount == bal.Balances[i] && bal.Balances[i] != 0 && fromRate == rates[i] && fromAvg == rates[i] && toRate == rates[fat2.PTickerUSD] && toAvg == rates[fat2.PTickerUSD]
+//@   requires @zero_rates_skipped height >= config.V202EnhanceActivation ==> rates[i] != 0 && rates[fat2.PTickerUSD] != 0
